@@ -158,27 +158,25 @@ theorem foldl_ext (f : Streams → Nat → Streams) (hf : ∀ s p, Ext s (f s p)
   | nil => exact Ext.refl _
   | cons p l ih => exact (hf s p).trans (ih _)
 
-/-- after `Send::schedule_implicit_reset` the stream is closed (if it is there) -/
+/-- after `Send::schedule_implicit_reset` the stream is closed (or it is an entry with nothing in flight) -/
 theorem scheduleImplicitReset_closed (s : Streams) (id : Nat) (r : Reason) (hk : KeysOK s.store)
-    (hlt : id < s.store.nextKey) {x' : Stream} (hx' : x' ∈ (s.scheduleImplicitReset id r).store.slab)
-    (hkx : x'.key = id) : x'.state.isClosed = true := by
+    {x' : Stream} (hx' : x' ∈ (s.scheduleImplicitReset id r).store.slab)
+    (hkx : x'.key = id) : x'.state.isClosed = true ∨ x'.inFlightRecvData = 0 := by
   unfold Streams.scheduleImplicitReset at hx'
   split at hx'
   · next hc =>
     have hg := get?_of_mem hk hx'
     rw [hkx] at hg
     rw [stream_eq_of_get? hg] at hc
-    exact hc
+    exact .inl hc
   · have e1 : Ext s (s.modStream id fun st => { st with state := st.state.setScheduledReset r }) :=
       modStream_ext _ _ _ fun x _ => setState_same x _ fun _ => rfl
     have hg1 := get?_modStream s id (fun st => { st with state := st.state.setScheduledReset r }) (fun _ => rfl)
     have hk1 := e1.keys hk
-    have hlt1 : id < (s.modStream id fun st => { st with state := st.state.setScheduledReset r }).store.nextKey :=
-      Nat.lt_of_lt_of_le hlt e1.nk
-    generalize (s.modStream id fun st => { st with state := st.state.setScheduledReset r }) = s1 at hx' hg1 hk1 hlt1
+    generalize (s.modStream id fun st => { st with state := st.state.setScheduledReset r }) = s1 at hx' hg1 hk1
     have e2 : Ext s1 ((s1.reclaimReservedCapacity id).scheduleSend id) :=
       (reclaimReservedCapacity_ext _ _).trans (scheduleSend_ext _ _)
-    refine Ext.closed_of_mem hk1 e2 (k := id) ?_ hlt1 hx' hkx
+    refine Ext.closed_or_empty_of_mem hk1 e2 (k := id) ?_ hx' hkx
     intro y hy
     rw [hg1] at hy
     cases hs : s.store.get? id with
@@ -187,10 +185,11 @@ theorem scheduleImplicitReset_closed (s : Streams) (id : Nat) (r : Reason) (hk :
       simp only [hs, Option.map_some, Option.some.injEq] at hy
       subst hy; rfl
 
-/-- after `maybe_cancel`, a stream without handles is closed -/
-theorem maybeCancel_closed (s : Streams) (id : Nat) (hk : KeysOK s.store) (hlt : id < s.store.nextKey)
+/-- after `maybe_cancel`, a stream without handles is closed (or an entry with nothing in flight) -/
+theorem maybeCancel_closed (s : Streams) (id : Nat) (hk : KeysOK s.store)
     {x' : Stream} (hx' : x' ∈ (s.maybeCancel id).store.slab) (hkx : x'.key = id)
-    (hrc : (((s.maybeCancel id).stream id).refCount == 0) = true) : x'.state.isClosed = true := by
+    (hrc : (((s.maybeCancel id).stream id).refCount == 0) = true) :
+    x'.state.isClosed = true ∨ x'.inFlightRecvData = 0 := by
   unfold Streams.maybeCancel at hx' hrc
   dsimp only at hx' hrc
   split at hx'
@@ -199,10 +198,11 @@ theorem maybeCancel_closed (s : Streams) (id : Nat) (hk : KeysOK s.store) (hlt :
       (if (s.counts.isServer && (s.stream id).state.isSendClosed && (s.stream id).state.isRecvStreaming) = true then NO_ERROR
         else CANCEL)
     have hk1 := e1.keys hk
-    have hlt1 := Nat.lt_of_lt_of_le hlt e1.nk
-    refine Ext.closed_of_mem hk1 (enqueueResetExpiration_ext _ id) (k := id) ?_ hlt1 hx' hkx
-    intro y hy
-    exact scheduleImplicitReset_closed s id _ hk hlt (get?_mem hy).1 (get?_mem hy).2
+    rcases (enqueueResetExpiration_ext _ id).slab hk1 x' hx' with ⟨y, hy, hs⟩ | hfr
+    · rcases scheduleImplicitReset_closed s id _ hk hy (by rw [← hs.key, hkx]) with hc | h0
+      · exact .inl (hs.closed hc)
+      · exact .inr (by rw [hs.infl]; exact h0)
+    · exact .inr hfr.infl
   · next hnc =>
     rw [if_neg hnc] at hrc
     have hg := get?_of_mem hk hx'
@@ -210,46 +210,70 @@ theorem maybeCancel_closed (s : Streams) (id : Nat) (hk : KeysOK s.store) (hlt :
     rw [stream_eq_of_get? hg] at hnc hrc
     unfold Stream.isCanceledInterest at hnc
     cases hcl : x'.state.isClosed with
-    | true => rfl
+    | true => exact .inl rfl
     | false => simp [hrc, hcl] at hnc
 
-/-- **`drop_stream_ref`** (a `StreamRef`/`OpaqueStreamRef` is dropped): when it was the last one,
-    everything the stream still holds goes back to the connection window -/
-theorem dropStreamRef_inv {full : Bool} {g : Ghost} {s : Streams} (h : Inv full g s) (id : Nat)
-    (hlt : id < s.store.nextKey) : Inv full g (s.dropStreamRef id) := by
-  unfold Streams.dropStreamRef
-  abs_let s1 h1 : Inv full g s1 ∧ id < s1.store.nextKey
-  · exact ⟨h.of_ext (setRefs_ext _ _), hlt⟩
-  abs_let s2 h2 : Inv full g s2 ∧ id < s2.store.nextKey
-  · by_cases hc : (s1.stream id).refCount > 0
-    · rw [if_pos hc]; exact h1
-    · rw [if_neg hc]; exact ⟨h1.1.of_ext (panic_ext _ _), by rw [panic_store]; exact h1.2⟩
-  abs_let s3 h3 : Inv full g s3 ∧ id < s3.store.nextKey
-  · have e := modStream_ext s2 id (fun st => { st with refCount := st.refCount - 1 })
-      (fun x _ => ⟨rfl, rfl, rfl, fun h => h, fun h => h⟩)
-    exact ⟨h2.1.of_ext e, Nat.lt_of_lt_of_le h2.2 e.nk⟩
-  zeta_let
-  abs_let s4 h4 : Inv full g s4 ∧ id < s4.store.nextKey
-  · by_cases hc : ((s3.stream id).refCount == 0 && (s3.stream id).isClosed) = true
-    · rw [if_pos hc]; exact ⟨h3.1.of_ext (notifyTask_ext _), Nat.lt_of_lt_of_le h3.2 (notifyTask_ext _).nk⟩
-    · rw [if_neg hc]; exact h3
-  apply transition_inv
-  dsimp only
-  have h5 : Inv full g (s4.maybeCancel id) := h4.1.of_ext (maybeCancel_ext _ _)
-  have hcl := fun x' hx' hkx hrc => maybeCancel_closed s4 id h4.1.keys h4.2 (x' := x') hx' hkx hrc
-  generalize s4.maybeCancel id = s5 at h5 hcl ⊢
+theorem foldl_inv {full : Bool} {g : Ghost} (f : Streams → Nat → Streams)
+    (hf : ∀ s p, Inv full g s → Inv full g (f s p)) (l : List Nat) (s : Streams) (h : Inv full g s) :
+    Inv full g (l.foldl f s) := by
+  induction l generalizing s with
+  | nil => exact h
+  | cons p l ih => exact ih _ (hf s p h)
+
+/-- `maybe_cancel` followed by `release_closed_capacity` when no handle is left (the stream itself
+    and, since the repair of the pushed-stream leak, each of its promised streams) -/
+theorem cancelRelease_inv {full : Bool} {g : Ghost} {s : Streams} (h : Inv full g s) (id : Nat) :
+    Inv full g (if ((s.maybeCancel id).stream id).refCount == 0 then (s.maybeCancel id).releaseClosedCapacity id
+      else s.maybeCancel id) := by
+  have h5 : Inv full g (s.maybeCancel id) := h.of_ext (maybeCancel_ext _ _)
+  have hcl := fun x' hx' hkx hrc => maybeCancel_closed s id h.keys (x' := x') hx' hkx hrc
+  generalize s.maybeCancel id = s5 at h5 hcl ⊢
   split
   · next hrc =>
-    have h6 : Inv full g (s5.releaseClosedCapacity id) :=
-      releaseClosedCapacity_inv h5 id fun _ x hx => .inl (hcl x (get?_mem hx).1 (get?_mem hx).2 hrc)
-    generalize s5.releaseClosedCapacity id = s6 at h6 ⊢
-    dsimp only
-    refine h6.of_ext ?_
-    refine (modStream_ext s6 id (fun st => { st with pendingPushPromises := [] })
-      (fun x _ => ⟨rfl, rfl, rfl, fun h => h, fun h => h⟩)).trans ?_
-    apply foldl_ext
-    intro s p
-    ext_auto
+    refine releaseClosedCapacity_inv h5 id fun _ x hx => ?_
+    rcases hcl x (get?_mem hx).1 (get?_mem hx).2 hrc with hc | h0
+    · exact .inl hc
+    · exact .inr (.inr h0)
   · exact h5
+
+/-- **`drop_stream_ref`** (a `StreamRef`/`OpaqueStreamRef` is dropped): when it was the last one,
+    everything the stream — and every stream promised on it that nobody polled — still holds goes
+    back to the connection window -/
+theorem dropStreamRef_inv {full : Bool} {g : Ghost} {s : Streams} (h : Inv full g s) (id : Nat) :
+    Inv full g (s.dropStreamRef id) := by
+  unfold Streams.dropStreamRef
+  abs_let s1 h1 : Inv full g s1
+  · exact h.of_ext (setRefs_ext _ _)
+  abs_let s2 h2 : Inv full g s2
+  · split
+    · exact h1
+    · exact h1.of_ext (panic_ext _ _)
+  abs_let s3 h3 : Inv full g s3
+  · exact h2.of_ext (modStream_ext s2 id (fun st => { st with refCount := st.refCount - 1 })
+      (fun x _ => ⟨rfl, rfl, rfl, fun h => h, fun h => h⟩))
+  zeta_let
+  abs_let s4 h4 : Inv full g s4
+  · split
+    · exact h3.of_ext (notifyTask_ext _)
+    · exact h3
+  apply transition_inv
+  dsimp only
+  have h5 := cancelRelease_inv h4 id
+  split
+  · next hrc =>
+    rw [if_pos hrc] at h5
+    generalize (s4.maybeCancel id).releaseClosedCapacity id = s6 at h5 ⊢
+    dsimp only
+    have h7 : Inv full g (s6.modStream id fun st => { st with pendingPushPromises := [] }) :=
+      h5.of_ext (modStream_ext s6 id (fun st => { st with pendingPushPromises := [] })
+        (fun x _ => ⟨rfl, rfl, rfl, fun h => h, fun h => h⟩))
+    refine foldl_inv _ (fun s p hs => ?_) _ _ h7
+    show Inv full g (Prod.fst _)
+    apply transition_inv
+    exact cancelRelease_inv (hs.of_ext (modStream_ext s p (fun st => { st with isPendingAccept := false })
+      (fun x _ => ⟨rfl, rfl, rfl, fun h => h, fun h => h⟩))) p
+  · next hrc =>
+    rw [if_neg hrc] at h5
+    exact h5
 
 end H2V.Lemmas.ConnRecvP
